@@ -178,7 +178,9 @@ class Node(object):
             self._children.insert(index, child)
             child.parent = self
 
-        if self.nsmap == child.nsmap:
+        if list(self.nsmap.items()) == list(child.nsmap.items()):
+            # Share one map only when it is identical including prefix order,
+            # so that attaching never reorders the child's declarations
             child.nsmap = self.nsmap
         else:
             for prefix in self.nsmap:
